@@ -110,7 +110,10 @@ fn judge_nal_frame(codec: VCodec, units: &[Vec<u8>], variant: usize, order: (u64
         Err(e) => t.violation("C07/nal/panic-or-finish-failure", order, || format!("{codec:?} frame {}: {e}", hex(&frame)), case),
         Ok(None) => {
             t.count("frames_rejected", 1);
-            if carries {
+            // a first parameter set beyond 65535 bytes cannot be carried by the record's 16-bit
+            // length fields: refusing the frame is the only correct outcome then (C16)
+            let representable = [&sps, &pps, &vps].iter().all(|x| x.as_ref().map(|u| u.len() <= 65535).unwrap_or(true));
+            if carries && representable {
                 t.violation("C07/nal/config-carrying-keyframe-rejected", order, || format!("{codec:?} frame {} holds all parameter sets but was rejected", hex(&frame)), case);
             }
         }
@@ -173,7 +176,8 @@ pub fn av1_headers(full: bool) -> Vec<SeqHdr> {
     let mut out = std::collections::HashSet::new();
     let b = [false, true];
     let levels: &[u8] = if full { &[0, 7, 8, 31] } else { &[7, 8] };
-    let uvlcs: &[u32] = if full { &[0, 1, 5] } else { &[0, 5] };
+    // incl. the longest ordinary code (31 leading zeros) and the 32-leading-zeros escape
+    let uvlcs: &[u32] = if full { &[0, 1, 5, u32::MAX - 1, u32::MAX] } else { &[0, 5, u32::MAX - 1, u32::MAX] };
     let descs: &[u8] = if full { &[0, 1, 2] } else { &[0, 1] };
     let csps: &[u8] = if full { &[0, 1, 2, 3] } else { &[0, 2] };
     // section B (timing / decoder model / operating points) x section C (tools) x section D (colour)
@@ -381,7 +385,7 @@ fn report_av1(t: &mut Tally, h: &SeqHdr, layout: usize, path: &str, order: (u64,
         } else {
             format!("C07/av1/{path}/{f}")
         };
-        t.violation(&sig, order, || format!("layout {layout}, header {h:?}: {d}"), || json!({"engine": "E2-c07-av1", "header_payload": hex(&h.payload()), "layout": layout, "frame": hex(frame), "path": path}));
+        t.violation(&sig, order, || format!("layout {layout}, header {h:?}: {d}"), || json!({"engine": "E2-c07-av1", "header_payload": hex(&h.payload()), "layout": layout, "frame": hex(frame), "path": path, "header": h}));
     }
 }
 
@@ -812,6 +816,8 @@ fn judge_cfg_history(codec: VCodec, manner: usize, va: u8, vb: u8, vc: u8, order
 
 enum Item {
     History(VCodec),
+    /// first parameter set of one type oversized (65536 / 70000 bytes), a normal one of the same type after it
+    Oversized,
     Nal(VCodec, Vec<Vec<usize>>),
     Av1(Vec<SeqHdr>, bool),
     Vp9(Vec<Vp9Hdr>),
@@ -887,6 +893,7 @@ pub fn check(ctx: &Ctx) -> i32 {
     for &codec in &oracle::frames::VCODECS {
         items.push(Item::History(codec));
     }
+    items.push(Item::Oversized);
 
     let tally = par_items(&items, ctx.seed, |idx, it, t| match it {
         Item::Nal(codec, lists) => {
@@ -929,6 +936,37 @@ pub fn check(ctx: &Ctx) -> i32 {
             }
         }
         Item::Stray => judge_stray(idx as u64, t),
+        Item::Oversized => {
+            let mut k = 0u64;
+            for codec in [VCodec::H264, VCodec::H265] {
+                let alpha = nal_alphabet(codec);
+                let get = |n: &str| alpha.iter().find(|(x, _)| *x == n).map(|x| x.1.clone()).unwrap();
+                let types: Vec<&str> = if codec == VCodec::H264 { vec!["SPS", "PPS"] } else { vec!["VPS", "SPS", "PPS"] };
+                for big_ty in &types {
+                    for big_len in [65535usize, 65536, 70000] {
+                        for second_first in [false, true] {
+                            let mut units: Vec<Vec<u8>> = vec![];
+                            for ty in &types {
+                                let a = get(&format!("{ty}a"));
+                                if ty == big_ty {
+                                    let mut big = a.clone();
+                                    while big.len() < big_len {
+                                        big.push(0x21 + (big.len() % 0xd0) as u8);
+                                    }
+                                    let small = get(&format!("{ty}b"));
+                                    if second_first { units.push(small); units.push(big); } else { units.push(big); units.push(small); }
+                                } else {
+                                    units.push(a);
+                                }
+                            }
+                            units.push(get("IDR"));
+                            k += 1;
+                            judge_nal_frame(codec, &units, 0, (idx as u64, k), t);
+                        }
+                    }
+                }
+            }
+        }
         Item::History(codec) => {
             let mut k = 0u64;
             for manner in 0..7 {
@@ -951,7 +989,7 @@ pub fn check(ctx: &Ctx) -> i32 {
         &tally,
         Meta {
             level: "exploration",
-            rule: format!("H.264/H.265: every first keyframe that is a sequence of <= {max_units} NAL units over {{SPSa, SPSb, PPSa, PPSb, (VPSa, VPSb), IDR, SEI, AUD, non-IDR}} x 8 framings (start-code phase, leading garbage, trailing zeros), muxed, finished, and the avcC/hvcC compared with the first parameter sets; AV1: {n_av1} syntactically valid sequence headers produced by a spec-5.5 bit writer (branch product of the header syntax{}) x {LAYOUTS} OBU layouts through extract_av1_config, and through muxer+finish+reader for {}; VP9: {n_vp9} headers of the accepted form; audio: {n_audio} (codec, rate, channels) combinations; fragmented init segments: {n_init} builder/FragmentConfig combinations (parameter-set lengths 1, 4, 255, 256; three dimensions); histories: per codec 7 kinds of first attempt (negative, NaN, overflowing composition offset, not a keyframe, infinite DTS, PTS far before DTS, none) x 4^3 configuration variants for (attempt, next keyframe, later keyframe), sample entry compared with the one of the first accepted keyframe alone. Expected values are known by construction (the generator wrote them). Distinct by the resulting sample entry bytes.", if ctx.thorough { ", full product" } else { ", every pair of sections in full product" }, if ctx.thorough { "every header" } else { "a section-default subset" }),
+            rule: format!("H.264/H.265: every first keyframe that is a sequence of <= {max_units} NAL units over {{SPSa, SPSb, PPSa, PPSb, (VPSa, VPSb), IDR, SEI, AUD, non-IDR}} x 8 framings (start-code phase, leading garbage, trailing zeros), muxed, finished, and the avcC/hvcC compared with the first parameter sets; keyframes whose first set of one type is 65535 / 65536 / 70000 bytes long with a normal second one of that type before or after it (refused, or the first one carried); AV1: {n_av1} syntactically valid sequence headers produced by a spec-5.5 bit writer (branch product of the header syntax{}) x {LAYOUTS} OBU layouts through extract_av1_config, and through muxer+finish+reader for {}; VP9: {n_vp9} headers of the accepted form; audio: {n_audio} (codec, rate, channels) combinations; fragmented init segments: {n_init} builder/FragmentConfig combinations (parameter-set lengths 1, 4, 255, 256; three dimensions); histories: per codec 7 kinds of first attempt (negative, NaN, overflowing composition offset, not a keyframe, infinite DTS, PTS far before DTS, none) x 4^3 configuration variants for (attempt, next keyframe, later keyframe), sample entry compared with the one of the first accepted keyframe alone. Expected values are known by construction (the generator wrote them). Distinct by the resulting sample entry bytes.", if ctx.thorough { ", full product" } else { ", every pair of sections in full product" }, if ctx.thorough { "every header" } else { "a section-default subset" }),
             bound: format!("<= {max_units} NAL units per keyframe; AV1 field domains as listed in DESIGN.md"),
             exhaustive: true,
             assumptions: vec!["the AV1 bit writer (oracle/src/frames.rs) follows AV1 spec 5.5; it is the source of truth for expected fields".into(), "vpcC values are judged positionally when the record is in muxide's 8-byte layout (the layout itself is C19's finding)".into()],
@@ -981,6 +1019,13 @@ pub fn replay(case: &Value) -> i32 {
             let codec: VCodec = serde_json::from_value(case["codec"].clone()).unwrap();
             let v: Vec<u8> = serde_json::from_value(case["variants"].clone()).unwrap();
             judge_cfg_history(codec, case["manner"].as_u64().unwrap() as usize, v[0], v[1], v[2], (0, 0), &mut t);
+        }
+        Some("E2-c07-av1") if case["header"].is_object() => {
+            let h: SeqHdr = serde_json::from_value(case["header"].clone()).unwrap();
+            let layout = case["layout"].as_u64().unwrap_or(0) as usize;
+            println!("header {h:?}, layout {layout}");
+            judge_av1_parser(&h, layout, (0, 0), &mut t);
+            judge_av1_file(&h, layout, (0, 1), &mut t);
         }
         Some("E2-c07-av1") => {
             let frame = unhex("frame");
